@@ -296,3 +296,168 @@ theorem evalTry_mono (hS : ∀ s l env st, Res.le (s1 s l env st) (s2 s l env st
 
 end
 end GojaModel.C02
+
+namespace GojaModel.C02
+section
+variable {e1 e2 : RecE} {c1 c2 : RecC} {s1 s2 : RecS} {t1 t2 : RecT}
+
+theorem runCases_mono (hS : ∀ s l env st, Res.le (s1 s l env st) (s2 s l env st))
+    (cs : List Case) (start : Option Nat) (env : Env) (st : St) :
+    Res.le (runCases s1 cs start env st) (runCases s2 cs start env st) := by
+  cases start with
+  | none => exact Res.le_refl _
+  | some i =>
+    simp only [runCases]
+    rcases evalStmts_mono hS (caseBodies (cs.drop i)) (some .undef) env st with h | h
+    · rw [h]; exact Or.inl rfl
+    · rw [h]; exact Res.le_refl _
+
+theorem evalSwitch_mono (hE : ∀ e env st, Res.le (e1 e env st) (e2 e env st))
+    (hS : ∀ s l env st, Res.le (s1 s l env st) (s2 s l env st))
+    (e : Expr) (cs : List Case) (env : Env) (st : St) :
+    Res.le (evalSwitch e1 s1 e cs env st) (evalSwitch e2 s2 e cs env st) := by
+  unfold evalSwitch
+  apply bindVal_mono (hE _ _ _); intro dv st1
+  apply bindVal_mono (findCase_mono hE _ _ _ _ _); intro r st3
+  exact runCases_mono hS _ _ _ _
+
+theorem evalFor_mono (hE : ∀ e env st, Res.le (e1 e env st) (e2 e env st))
+    (hT : ∀ t env st, Res.le (t1 t env st) (t2 t env st))
+    (init : ForInit) (test upd : Option Expr) (b : Stmt) (l : List Name) (env : Env) (st : St) :
+    Res.le (evalFor e1 t1 init test upd b l env st) (evalFor e2 t2 init test upd b l env st) := by
+  unfold evalFor
+  split
+  · exact hT _ _ _
+  · apply bindVal_mono (hE _ _ _); intro _ _; exact hT _ _ _
+  · apply bindSt_mono (evalDeclrs_mono hE _ _ _ _); intro _; exact hT _ _ _
+  · apply bindSt_mono (evalDeclrs_mono hE _ _ _ _); intro _; exact hT _ _ _
+
+theorem stepStmt_mono (hE : ∀ e env st, Res.le (e1 e env st) (e2 e env st))
+    (hS : ∀ s l env st, Res.le (s1 s l env st) (s2 s l env st))
+    (hT : ∀ t env st, Res.le (t1 t env st) (t2 t env st))
+    (s : Stmt) (l : List Name) (env : Env) (st : St) :
+    Res.le (stepStmt e1 s1 t1 s l env st) (stepStmt e2 s2 t2 s l env st) := by
+  cases s with
+  | expr e => simp only [stepStmt]; exact bindVal_mono (hE _ _ _) (fun _ _ => Res.le_refl _)
+  | decl k ds => simp only [stepStmt]; exact evalDeclrs_mono hE _ _ _ _
+  | fdecl x i => exact Res.le_refl _
+  | empty => exact Res.le_refl _
+  | block ss => simp only [stepStmt]; exact evalBlock_mono hS _ _ _
+  | ite c t e =>
+    simp only [stepStmt]
+    apply bindVal_mono (hE _ _ _); intro v st1
+    exact updEmpty_mono _ (hS _ _ _ _)
+  | «while» c b => simp only [stepStmt]; exact hT _ _ _
+  | doWhile b c => simp only [stepStmt]; exact hT _ _ _
+  | «for» i t u b => simp only [stepStmt]; exact evalFor_mono hE hT _ _ _ _ _ _ _
+  | brk l => exact Res.le_refl _
+  | cont l => exact Res.le_refl _
+  | ret e =>
+    cases e with
+    | none => exact Res.le_refl _
+    | some e => simp only [stepStmt]; exact bindVal_mono (hE _ _ _) (fun _ _ => Res.le_refl _)
+  | throw e => simp only [stepStmt]; exact bindVal_mono (hE _ _ _) (fun _ _ => Res.le_refl _)
+  | «try» b hc p cb hf fb => simp only [stepStmt]; exact evalTry_mono hS _ _ _ _ _ _ _ _
+  | labeled l' s =>
+    simp only [stepStmt]
+    rcases hS s (l' :: l) env st with h | h
+    · rw [h]; exact Or.inl rfl
+    · rw [h]; exact Res.le_refl _
+  | switch e cs => simp only [stepStmt]; exact evalSwitch_mono hE hS _ _ _ _
+  | outside w => exact Res.le_refl _
+
+theorem stepWhile_mono (hE : ∀ e env st, Res.le (e1 e env st) (e2 e env st))
+    (hS : ∀ s l env st, Res.le (s1 s l env st) (s2 s l env st))
+    (hT : ∀ t env st, Res.le (t1 t env st) (t2 t env st))
+    (c : Expr) (b : Stmt) (l : List Name) (V : Val) (env : Env) (st : St) :
+    Res.le (stepWhile e1 s1 t1 c b l V env st) (stepWhile e2 s2 t2 c b l V env st) := by
+  unfold stepWhile
+  apply bindVal_mono (hE _ _ _); intro tv st1
+  split
+  · exact Res.le_refl _
+  · exact afterBody_mono (hS _ _ _ _) (fun _ _ => hT _ _ _)
+
+theorem stepDo_mono (hE : ∀ e env st, Res.le (e1 e env st) (e2 e env st))
+    (hS : ∀ s l env st, Res.le (s1 s l env st) (s2 s l env st))
+    (hT : ∀ t env st, Res.le (t1 t env st) (t2 t env st))
+    (b : Stmt) (c : Expr) (l : List Name) (V : Val) (env : Env) (st : St) :
+    Res.le (stepDo e1 s1 t1 b c l V env st) (stepDo e2 s2 t2 b c l V env st) := by
+  unfold stepDo
+  apply afterBody_mono (hS _ _ _ _); intro V' st2
+  apply bindVal_mono (hE _ _ _); intro tv st3
+  split
+  · exact Res.le_refl _
+  · exact hT _ _ _
+
+theorem forBody_mono (hE : ∀ e env st, Res.le (e1 e env st) (e2 e env st))
+    (hS : ∀ s l env st, Res.le (s1 s l env st) (s2 s l env st))
+    (hT : ∀ t env st, Res.le (t1 t env st) (t2 t env st))
+    (per : List Name) (test upd : Option Expr) (b : Stmt) (l : List Name) (V : Val) (env : Env) (st : St) :
+    Res.le (forBody e1 s1 t1 per test upd b l V env st) (forBody e2 s2 t2 per test upd b l V env st) := by
+  unfold forBody
+  apply afterBody_mono (hS _ _ _ _); intro V' st2
+  split
+  · exact hT _ _ _
+  · apply bindVal_mono (hE _ _ _); intro _ _; exact hT _ _ _
+
+theorem stepFor_mono (hE : ∀ e env st, Res.le (e1 e env st) (e2 e env st))
+    (hS : ∀ s l env st, Res.le (s1 s l env st) (s2 s l env st))
+    (hT : ∀ t env st, Res.le (t1 t env st) (t2 t env st))
+    (per : List Name) (test upd : Option Expr) (b : Stmt) (l : List Name) (V : Val) (env : Env) (st : St) :
+    Res.le (stepFor e1 s1 t1 per test upd b l V env st) (stepFor e2 s2 t2 per test upd b l V env st) := by
+  unfold stepFor
+  split
+  · exact forBody_mono hE hS hT _ _ _ _ _ _ _ _
+  · apply bindVal_mono (hE _ _ _); intro tv st1
+    split
+    · exact Res.le_refl _
+    · exact forBody_mono hE hS hT _ _ _ _ _ _ _ _
+
+theorem bindParams_mono (hE : ∀ e env st, Res.le (e1 e env st) (e2 e env st)) :
+    ∀ (ps : List Param) (args : List Val) (env : Env) (st : St),
+      Res.le (bindParams e1 ps args env st) (bindParams e2 ps args env st)
+  | [], _, _, _ => Res.le_refl _
+  | p :: ps, args, env, st => by
+    unfold bindParams
+    split
+    · apply bindVal_mono (hE _ _ _); intro v st1; exact bindParams_mono hE ps _ env _
+    · exact bindParams_mono hE ps _ env _
+
+theorem stepCall_mono (hE : ∀ e env st, Res.le (e1 e env st) (e2 e env st))
+    (hS : ∀ s l env st, Res.le (s1 s l env st) (s2 s l env st))
+    (funs : List FunDef) (f t : Val) (a : List Val) (st : St) :
+    Res.le (stepCall funs e1 s1 f t a st) (stepCall funs e2 s2 f t a st) := by
+  unfold stepCall
+  split
+  · split
+    · exact Res.le_refl _
+    · apply bindSt_mono (bindParams_mono hE _ _ _ _); intro st3
+      exact finishCall_mono (evalBlock_mono hS _ _ _)
+  · exact Res.le_refl _
+
+theorem step_mono (P : Prog) (hT : ∀ t env st, Res.le (t1 t env st) (t2 t env st))
+    (t : Task) (env : Env) (st : St) : Res.le (step P t1 t env st) (step P t2 t env st) := by
+  have hE : ∀ e env st, Res.le (t1 (.expr e) env st) (t2 (.expr e) env st) := fun _ _ _ => hT _ _ _
+  have hS : ∀ s l env st, Res.le (t1 (.stmt s l) env st) (t2 (.stmt s l) env st) := fun _ _ _ _ => hT _ _ _
+  have hC : ∀ f t a st, Res.le (t1 (.call f t a) [] st) (t2 (.call f t a) [] st) := fun _ _ _ _ => hT _ _ _
+  cases t with
+  | expr e => exact evalExpr_mono hE hC _ _ _ _
+  | stmt s l => exact stepStmt_mono hE hS hT _ _ _ _
+  | call f t a => exact stepCall_mono hE hS _ _ _ _ _
+  | whileLoop c b l V => exact stepWhile_mono hE hS hT _ _ _ _ _ _
+  | doLoop b c l V => exact stepDo_mono hE hS hT _ _ _ _ _ _
+  | forLoop per test upd b l V => exact stepFor_mono hE hS hT _ _ _ _ _ _ _ _
+
+theorem eval_succ_le (P : Prog) : ∀ (n : Nat) (t : Task) (env : Env) (st : St),
+    Res.le (eval P n t env st) (eval P (n + 1) t env st)
+  | 0, _, _, _ => Res.timeout_le _
+  | n + 1, t, env, st => step_mono P (eval_succ_le P n) t env st
+
+theorem eval_le_of_le (P : Prog) {n m : Nat} (h : n ≤ m) (t : Task) (env : Env) (st : St) :
+    Res.le (eval P n t env st) (eval P m t env st) := by
+  induction h with
+  | refl => exact Res.le_refl _
+  | step _ ih => exact Res.le_trans ih (eval_succ_le P _ t env st)
+
+end
+end GojaModel.C02
